@@ -104,6 +104,7 @@ macro_rules! hash_body {
         w!(ra.len == rb.len && !ra.v.is_zero(), "equal non-zero values of the same length");
         w!(ra.len > 0 && ra.v.sig() == ra.len && rb.len > ra.len, "top bit of the shorter operand set");
         w!((ra.cap != rb.cap) == $spare && !ra.v.is_zero(), "non-zero value; storage sizes differ iff the pairing has different allocations");
+        let _sep = nd::bool(); // keeps counterexample traces distinct from witness traces (playback dedupe)
         let mut ha = Rec::new();
         let mut hb = Rec::new();
         a.hash(&mut ha);
